@@ -175,3 +175,31 @@ Proof.
   apply C12_wf_thm; assumption.
 Qed.
 Print Assumptions C08_fault_atomic_reachable_partial.
+
+(** ** after a death inside an operation the restarted process can go on: leftovers are cleaned
+
+    FULL STATEMENT (C08_crash_then_snapshot_succeeds): for every reachable state, every operation and
+    every k, the directory left by death after k calls is opened and then accepts a Snapshot (with a
+    name that is not in use) and a Revert to any retained snapshot, both returning success over a
+    well-formed chain.  NOT PROVED in general: it needs, on top of [C08_kill_reopen], the invariant
+    that no image above the current head holds data and that the new snapshot's two names are free,
+    carried through every operation.  What is proved is the statement for every k of a Snapshot and
+    of a Revert on one representative pre-state (three snapshots with data, process death), by
+    evaluation of the model ([follow_all_ok]: death before every call including none; the follow-up
+    is open, set mode RW, then Snapshot s8 / Revert to the base snapshot; every step returns success
+    and satisfies [wf_obs]); the check evaluates the same oracle on the model and on the real replica
+    for every executed case.  [create_new_head] transcribes the leftover rule of the code: an
+    existing next-head file without allocated data is removed and recreated, one with data is refused. *)
+Theorem C08_crash_then_follow_ex :
+  let g := code_cfg 8 in
+  let u := [Head 0; Head 1; Head 2; Head 3; Head 4; Head 5; Head 6; Head 7; Snap 0; Snap 1; Snap 2; Snap 3; Snap 8; Snap 9] in
+  let pre := [OCreate 16384 7; OOpen; OSetMode (Some RW); OWrite; OSnap 1 true 1; OWrite; OSnap 2 false 2; OWrite;
+              OSnap 3 false 3; OWrite; OCrash] in
+  let fsnap := [OOpen; OSetMode (Some RW); OSnap 8 false 8] in
+  let frev := [OOpen; OSetMode (Some RW); ORevert (Snap 1) 8] in
+  follow_all_ok (mkvcase g u pre (OSnap 9 true 9)) fsnap = true
+  /\ follow_all_ok (mkvcase g u pre (OSnap 9 true 9)) frev = true
+  /\ follow_all_ok (mkvcase g u pre (ORevert (Snap 2) 9)) fsnap = true
+  /\ follow_all_ok (mkvcase g u pre (ORevert (Snap 2) 9)) frev = true.
+Proof. vm_compute. repeat split. Qed.
+Print Assumptions C08_crash_then_follow_ex.
